@@ -7,10 +7,11 @@ package main
 // recorded; TLC validates every case against spec/Records.tla through
 // spec/RecordsTrace.tla.
 //
-// The struct registry of the library is process-global: every case uses its
-// own struct names (abstract name + a per-case suffix) and its own
-// interpreter.  Events carry the abstract operation; the script text is
-// rendered from it, so a replay renders fresh names.
+// The struct registry of the library is process-global and a process can use
+// only one interpreter for struct declarations (see theRecDriver): every case
+// uses its own struct and variable names (abstract name + a per-case suffix).
+// Events carry the abstract operation; the script text is rendered from it,
+// so a replay renders fresh names.
 
 import (
 	"encoding/json"
@@ -763,7 +764,11 @@ func matrixTypes() []rtype {
 }
 
 // matrix prelude: C{fa:int64}; B{fa:T, fb:int64}; A{fh:B, fp:(* B)};
-// i1=(C) i2=(B) [the target] i3=(A fh:i2 fp:(& i2)) [the holder] i4=(B)
+// i1=(C) i2=(B) [the target] i3=(A fh:i2 fp:(& i2)) [the holder] i4=(B) i5=(A).
+// Only i1, i4, i5 are written into the target by value: none of them refers to
+// the target, so even a library that wrongly accepted every write could not
+// build a record containing itself (its printer would not survive that and
+// would take the harness process with it).
 func matrixPrelude(t rtype) []rop {
 	return []rop{
 		opDeclare("C", fld("fa", tI64)),
@@ -773,12 +778,13 @@ func matrixPrelude(t rtype) []rop {
 		opCtor("ctor", "B"),
 		opCtor("ctor", "A", arg("fh", vInst(2)), arg("fp", vPtr(2))),
 		opCtor("ctor", "B"),
+		opCtor("ctor", "A"),
 	}
 }
 
 func matrixVals() []rval {
 	return []rval{vI64, vStr, vF64, vSI, vSS, vSF, vES, vNil, vNilS,
-		vInst(1), vInst(4), vInst(3), vInst(2), vPtr(1), vPtr(4), vPtr(2), vPtr(3),
+		vInst(1), vInst(4), vInst(5), vPtr(1), vPtr(4), vPtr(2), vPtr(3), vPtr(5),
 		vAnon("C"), vAnon("B"), vAptr("C"), vAptr("B")}
 }
 
@@ -796,16 +802,7 @@ func (g *recGen) matrix() {
 			if rt.hop != "" {
 				slot = 3
 			}
-			var vals []rval
-			for _, v := range matrixVals() {
-				// a key that is not a symbol is stored unchecked (known finding): the
-				// target or its holder stored in the target would be a record
-				// containing itself, which the library's printer cannot survive
-				if rt.keyK != "sym" && v.K == "inst" && (v.N == 2 || v.N == 3) {
-					continue
-				}
-				vals = append(vals, v)
-			}
+			vals := matrixVals()
 			for _, v := range vals {
 				for _, k := range []string{"fa", "zz"} {
 					ops = append(ops, opWrite(rt, slot, k, v))
@@ -913,7 +910,7 @@ func (g *recGen) redecl() {
 		for i2, d2 := range defs {
 			for ri, rt := range routes {
 				n++
-				if !g.c.thorough() && (i1+2*i2+ri)%3 != 0 {
+				if !g.c.thorough() && (i1+2*i2+ri)%4 != 0 {
 					g.idx++ // keep the numbering independent of the tier
 					continue
 				}
@@ -967,35 +964,33 @@ func (g *recGen) crossver() {
 				opDeclare("B", fld("fa", tI64)),
 				opCtor("ctor", "B"), // 1: B v1
 				opDeclare("A", fld("fa", tStruct("B")), fld("fp", tPtr("B"))),
-				opCtor("ctor", "A"), // 2: A v1
+				opCtor("ctor", "A"), // 2: A v1, target
+				opCtor("ctor", "A"), // 3: A v1, only ever a value (the wrong struct)
 			}
 			w := func(slots ...int) {
 				for _, s := range slots {
 					for _, k := range []string{"fa", "fp"} {
-						for _, v := range []rval{vInst(1), vInst(3), vAnon("B"), vPtr(1), vPtr(3), vAptr("B"), vInst(2), vPtr(2), vNil, vI64} {
-							if rt.keyK != "sym" && v.K == "inst" && v.N == s {
-								continue // would store the record in itself, see matrix()
-							}
+						for _, v := range []rval{vInst(1), vInst(4), vAnon("B"), vPtr(1), vPtr(4), vAptr("B"), vInst(3), vPtr(3), vPtr(2), vNil, vI64} {
 							ops = append(ops, opWrite(rt, s, k, v))
 						}
 					}
 				}
 			}
 			w(2)
-			ops = append(ops, opDeclare("B", b2...), opCtor("ctor", "B")) // 3: B v2
+			ops = append(ops, opDeclare("B", b2...), opCtor("ctor", "B")) // 4: B v2
 			w(2)
-			ops = append(ops, opDeclare("A", fld("fa", tStruct("B")), fld("fp", tPtr("B"))), opCtor("ctor", "A")) // 4: A v2
-			w(2, 4)
-			ops = append(ops, opCtor("ctor", "A", arg("fa", vInst(1))), opCtor("ctor", "A", arg("fa", vInst(3))),
-				opCtor("ctor", "A", arg("fp", vPtr(1))), opCtor("ctor", "A", arg("fp", vPtr(3))),
-				opDerefset("addr", 1, "", "B"), opDerefset("addr", 3, "", "B"), opDerefset("addr", 2, "", "A"))
-			w(2, 4)
+			ops = append(ops, opDeclare("A", fld("fa", tStruct("B")), fld("fp", tPtr("B"))), opCtor("ctor", "A")) // 5: A v2, target
+			w(2, 5)
+			ops = append(ops, opCtor("ctor", "A", arg("fa", vInst(1))), opCtor("ctor", "A", arg("fa", vInst(4))),
+				opCtor("ctor", "A", arg("fp", vPtr(1))), opCtor("ctor", "A", arg("fp", vPtr(4))),
+				opDerefset("addr", 1, "", "B"), opDerefset("addr", 4, "", "B"), opDerefset("addr", 2, "", "A"))
+			w(2, 5)
 			g.emit("v", ops)
 		}
 	}
 }
 
-// (g) element assignment into the slice a field holds: every element route x slice type x
+// (e) element assignment into the slice a field holds: every element route x slice type x
 // element kind x index, on a filled, an unset, an empty and a non-slice field
 func (g *recGen) elements() {
 	for _, t := range []rtype{tSI, tSS, {"slice", "float64"}} {
@@ -1004,8 +999,8 @@ func (g *recGen) elements() {
 			ops := []rop{
 				opDeclare("B", fld("fa", t), fld("fb", tI64), fld("fc", tStr)),
 				opCtor("ctor", "B", arg("fa", right), arg("fb", vI64)), // 1
-				opCtor("ctor", "B"),                                  // 2: fa unset
-				opCtor("ctor", "B", arg("fa", vES), arg("fc", vNil)),  // 3: fa empty
+				opCtor("ctor", "B"), // 2: fa unset
+				opCtor("ctor", "B", arg("fa", vES), arg("fc", vNil)), // 3: fa empty
 			}
 			for _, slot := range []int{1, 2, 3} {
 				for _, f := range []string{"fa", "fb", "fc", "zz"} {
@@ -1111,11 +1106,11 @@ func histPrelude() []rop {
 	}
 }
 
-// (e) every history of length <= L over the alphabet (longer ones sampled)
+// (f) every history of length <= L over the alphabet (longer ones sampled)
 func (g *recGen) histories() {
-	full, sampledLen, num, den := 2, 3, 1, 24
+	full, sampledLen, num, den := 2, 3, 1, 32
 	if g.c.thorough() {
-		full, sampledLen, num, den = 3, 4, 1, 48
+		full, sampledLen, num, den = 3, 4, 1, 96
 	}
 	nA := len(histAlphabet(0))
 	var rec func(prefix []int)
@@ -1143,13 +1138,13 @@ func (g *recGen) histories() {
 	rec(nil)
 }
 
-// (f) seeded random long histories
+// (g) seeded random long histories
 func (g *recGen) random() {
 	n := g.c.n
 	if n == 0 {
 		n = 300
 		if g.c.thorough() {
-			n = 6000
+			n = 4000
 		}
 	}
 	names := []string{"A", "B", "C"}
@@ -1162,6 +1157,7 @@ func (g *recGen) random() {
 		r := newRng(g.c.seed, uint64(i)+1000)
 		declared := map[string]bool{}
 		nslots := 0
+		slotType := map[int]string{}
 		randType := func(self string) rtype {
 			for {
 				switch r.intn(8) {
@@ -1271,8 +1267,10 @@ func (g *recGen) random() {
 				ops = append(ops, randDecl(pick(r, names)))
 			case x < 5 && nslots < 8:
 				cr := pick(r, crs)
-				ops = append(ops, cr.op(declaredName(), randArgs(cr.kind == "decode")...))
+				n := declaredName()
+				ops = append(ops, cr.op(n, randArgs(cr.kind == "decode")...))
 				nslots++
+				slotType[nslots] = n
 			case x < 7 && x >= 6 && nslots > 0:
 				ops = append(ops, opElem(pick(r, elemRoutes()).name, 1+r.intn(nslots), pick(r, fnames), r.intn(2), pick(r, []rval{vI64, vStr, vF64})))
 			case x < 6 && nslots > 0:
@@ -1292,14 +1290,20 @@ func (g *recGen) random() {
 				}
 				k := pick(r, []string{"fa", "fa", "fb", "fc", "fp", "zz"})
 				v := randVal(false)
-				for rt.keyK != "sym" && v.K == "inst" {
-					v = randVal(false) // see matrix()
+				tgt := 1 + r.intn(nslots)
+				// an instance is stored by value only in an instance of a "higher" struct
+				// (A > B > C), otherwise a fresh one of the same struct is written: no
+				// record can come to contain itself, whatever the library accepts
+				if v.K == "inst" && (rt.keyK != "sym" || rt.hop != "" || !(slotType[v.N] > slotType[tgt])) {
+					v = vAnon(slotType[v.N])
 				}
-				ops = append(ops, opWrite(rt, 1+r.intn(nslots), k, v))
+				ops = append(ops, opWrite(rt, tgt, k, v))
 			default:
 				cr := pick(r, crs)
-				ops = append(ops, cr.op(declaredName(), randArgs(cr.kind == "decode")...))
+				n := declaredName()
+				ops = append(ops, cr.op(n, randArgs(cr.kind == "decode")...))
 				nslots++
+				slotType[nslots] = n
 			}
 		}
 		i0 := g.idx
